@@ -272,6 +272,6 @@ def run(res, tier):
     res.floor("C03.c", ntasks, 14, "omp task directives")
     res.floor("C03.b", nunits, 14, "task units with wrapper calls")
 
-    if tier == "thorough":
+    if tier in ("quick", "thorough"):      # the Specx / StarPU executors (declaration stubs) are analysed on every run: the unit tests never compile them, so nothing else would notice a change there
         import c03_runtimes
         c03_runtimes.run(res, weff_core=weff)
